@@ -30,7 +30,9 @@ GLOBAL_RULES = [
     Rule('R4', r'([A-Za-z_][A-Za-z0-9_\.]*)\s*\.chars\(\)\s*\.skip\(([^()]*(?:\([^()]*\))?[^()]*)\)\s*\.take\(([^()]*(?:\([^()]*\))?[^()]*)\)\s*\.collect\(\)',
          r'shim_skip_take(&\1, \2, \3)', 'std iterator adapter -> shim'),
     Rule('R5', r'([A-Za-z_][A-Za-z0-9_\.]*(?:\(\))?(?:\.unwrap_or_default\(\))?)\s*\.chars\(\)\s*\.count\(\)',
-         r'shim_char_count(&\1)', 'std iterator adapter -> shim'),
+         lambda m: (f'shim_str_char_count({m.group(1)})' if re.fullmatch(r'[A-Za-z_][A-Za-z0-9_]*', m.group(1))
+                    else f'shim_char_count(&{m.group(1)})'),
+         'std iterator adapter -> shim (a bare identifier is a `&str` parameter, anything else a `String` place)'),
     Rule('R2', r'([A-Za-z_][A-Za-z0-9_]*)\.iter\(\)\.collect(?:::<String>)?\(\)',
          r'shim_string_of(&\1)', 'std iterator adapter -> shim'),
     Rule('R3', r'([A-Za-z_][A-Za-z0-9_]*)\.drain\(([A-Za-z_][A-Za-z0-9_]*)\.\.([A-Za-z_][A-Za-z0-9_]*)\);',
@@ -41,7 +43,8 @@ GLOBAL_RULES = [
 
 class Fn:
     def __init__(self, file, owner, name, ret='r', requires=(), ensures=(), loops=None, rules=(),
-                 inject=(), sig_rules=(), decreases=None, label=None, mode=None, twin_wrap=None, props=None, safety_props=None):
+                 inject=(), sig_rules=(), decreases=None, label=None, mode=None, twin_wrap=None, props=None, safety_props=None,
+                 no_twin=False):
         self.file = file
         self.owner = owner
         self.name = name
@@ -58,6 +61,7 @@ class Fn:
         self.twin_wrap = twin_wrap   # e.g. 'impl DomXmlText': where the vacuity twin goes when it cannot sit next to the fn
         self.props = props
         self.safety_props = safety_props
+        self.no_twin = no_twin      # trait-impl members cannot get a renamed twin; allowed only for functions without `requires`
 
 
 class Assembled:
@@ -202,7 +206,9 @@ def assemble(template, fns, twins=False, repo=REPO):
             emit(bl if bi else indent + bl,
                  dict(key=key, kind='body', label='body', repo_file=fn.file, repo_line=body_repo_line0 + bi))
         gen_end = len(lines_out)
-        if twins:
+        if twins and fn.no_twin and fn.requires:
+            raise rustscan.ScanError(f'{fn.label}: no_twin is only allowed without preconditions')
+        if twins and not fn.no_twin:
             tw = []
             tsig = re.sub(r'\bfn\s+' + re.escape(fn.name) + r'\b', 'fn ' + fn.name + '__vacuity', sig, count=1)
             tw.append((indent + tsig, None))
